@@ -40,19 +40,15 @@ def merge(h, d):
 
 def run(ctx):
     proofs_ok = ctx.static_and_proofs("attempts")
-    if ctx.tier == "quick":
-        args = ["-exh", "1", "-n", "80"]
-    else:
-        args = ["-exh", "2", "-n", "15000", "-par", "8"]
+    QUICK = ["-exh", "3", "-n", "120"]
+    THOROUGH = ["-exh", "4", "-n", "8000", "-par", "8"]
+    args = QUICK if ctx.tier == "quick" else THOROUGH
     only = os.environ.get("C05_ONLY")
     if ctx.replay:
         rp = json.load(open(ctx.replay))
         only = rp.get("case")
         ctx.env["VERIF_SEED"] = str(rp.get("seed", ctx.seed))
-        if rp.get("tier") == "thorough":
-            args = ["-exh", "2", "-n", "15000", "-par", "8"]
-        else:
-            args = ["-exh", "1", "-n", "80"]
+        args = THOROUGH if rp.get("tier") == "thorough" else QUICK
     if only:
         args += ["-only", only]
     cases = ctx.harness("c05", args, timeout=3000)
@@ -119,7 +115,9 @@ def run(ctx):
         ran += d.get("ran", 0)
         runs += d.get("runs", 0)
         never += d.get("never_ran", 0)
-    ctx.oblige("bounded-exhaustive family: all 3125 (script of length 4, retries 0-4) combinations ran", len(combos) == 3125 or bool(only))
+    want = 5 * 10 ** int(args[args.index("-exh") + 1])
+    ctx.oblige("bounded-exhaustive family: all %d (script of length %s over the 10 outcomes, retries 0-4) combinations ran"
+               % (want, args[args.index("-exh") + 1]), len(combos) == want or bool(only))
     samples = []
     for c in live[:1] + live[-2:]:
         o = c["observed"]["actions"][:3]
@@ -130,9 +128,10 @@ def run(ctx):
         distinct_nontrivial=fw.distinct_nontrivial(live),
         rule="evaluations = action runs compared with run_action and checked against ActionAuto (a check action of a continuous group "
              "contributes one per run of the group); distinct = plans with distinct multisets of (retries, delivered script, kind, calls, "
-             "attempts); non-trivial = at least one action ran. Bounded-exhaustive: every script of length 4 over {ok, err, perm, "
-             "wrong-type, overrun} x retries 0..4 (3125 combinations; quick: each once, as a sequence or as a check action by the seed; "
-             "thorough: each in both kinds), laid out over plans so that each one runs; random: 1-3 sequences x 1-3 actions, each of the "
+             "attempts); non-trivial = at least one action ran. Bounded-exhaustive: every script of length k over the 10 outcomes "
+             "{overrun} + {nil, good, wrong-typed response} x {no, transient, permanent error} x retries 0..4 (quick: k=3, 5000 "
+             "combinations; thorough: k=4, 50000), each once, as a sequence or as a check action by the seed, laid out over plans so "
+             "that each one runs; random: 1-3 sequences x 1-3 actions, each of the "
              "10 check groups with p=.35, scripts of length 0-6, retries 0-4, conc 1-3, tolerance -1..2",
         samples=samples,
         traces_validated_against_impl=runs,
